@@ -89,7 +89,13 @@ func NewCommentReader(r io.Reader, startMatches, endMatches [][]byte, isComments
 
 		var extra int
 		left := data[pos+len(startMatches[index]):]
-		if extra = bytes.Index(left, endMatches[index]); extra == -1 {
+		if isComments[index] {
+			extra = bytes.Index(left, endMatches[index])
+		} else {
+			// for string, the backslash escapes the next char, for example, "a\"b//c".
+			extra = indexUnescaped(left, endMatches[index])
+		}
+		if extra == -1 {
 			if atEOF {
 				if requiredMatches[index] {
 					return 0, nil, commentNotMatch
@@ -143,6 +149,28 @@ func (v *commentReader) Read(p []byte) (n int, err error) {
 	}
 
 	return
+}
+
+// get the first match of flag in data which is not escaped by backslash.
+func indexUnescaped(data []byte, flag []byte) int {
+	for from := 0; from < len(data); {
+		pos := bytes.Index(data[from:], flag)
+		if pos == -1 {
+			return -1
+		}
+		pos += from
+
+		// escaped when follows odd number of backslashes.
+		var n int
+		for i := pos - 1; i >= 0 && data[i] == '\\'; i-- {
+			n++
+		}
+		if n%2 == 0 {
+			return pos
+		}
+		from = pos + 1
+	}
+	return -1
 }
 
 // get the first match in flags.
